@@ -266,6 +266,94 @@ def work_rawfilter(job):
     return r
 
 
+IMG_URLS = {
+    'empty-url': [''],
+    'plain-url': ['pic.png', 'dir/pic.jpeg', 'http://e.x/i.png', 'p'],
+    'query-after-last-dot': ['render/chart.png?rev=3&size=large', 'c.p&g', "c.p'g", 'a.b?x=<1', 'x.png?q="1"', 'i.j>k'],
+    'special-before-last-dot': ['a&b.png', "a'b.png", 'a<b.png', 'a>b.png', 'http://e.x/?a=1&b=2&c.png'],
+    'no-dot': ['a&b', "it's", 'p?a=1&b=2', '#frag&x'],
+    'angle-url': ['<a b.png>', '<a&b c.png>'],
+}
+IMG_ATTR = {
+    'none': [''],
+    'plain-dimension': ['width="100px"', 'height="40" width="30"', 'width=50%', 'width="auto"', 'height="2cm"'],
+    'lt-in-dimension': ['width="1<0px"', 'height="1<0" width="20px"'],
+    'amp-in-dimension': ['width="2&3"', 'height="a&b" width="c&d"'],
+    'quote-in-dimension': ["width='1\"0px'", "width=\"4'5\""],
+    'gt-in-dimension': ['width="3>2px"'],
+    'other-attribute': ['class="a&b"', 'id="x<y"', 'data-x="]]>"'],
+}
+
+
+def work_images(job):
+    """images (inline, figure, by reference) whose destination or dimension attributes hold XML-special characters or nothing at all:
+    one unusual feature per document, so that the key names it; alt text and titles are plain words here (their escaping is judged in work())"""
+    seed, lo, hi = job
+    r = core.JobResult()
+    with core.Session(r) as s:
+        for i in range(lo, hi):
+            rng = core.job_rng(seed, ID, 'img', i)
+            if rng.random() < 0.5:
+                uf, af = rng.choice(sorted(IMG_URLS)), rng.choice(['none', 'none', 'plain-dimension'])
+            else:
+                uf, af = rng.choice(['plain-url', 'plain-url', 'empty-url']), rng.choice(sorted(IMG_ATTR))
+            url, attr = rng.choice(IMG_URLS[uf]), rng.choice(IMG_ATTR[af])
+            title = rng.choice(['', ' "A title"'])
+            form = rng.choice(['inline', 'figure', 'reference', 'reference-figure', 'in-list', 'in-table', 'link-around'])
+            dest = url + title + ((' ' + attr) if attr else '')
+            if form == 'inline':
+                text = 'Before ![alt w1](%s) after.\n' % dest
+            elif form == 'figure':
+                text = 'Para.\n\n![caption w1](%s)\n\nAfter.\n' % dest
+            elif form == 'reference':
+                text = 'Before ![alt w1][pic] after.\n\n[pic]: %s\n' % dest
+            elif form == 'reference-figure':
+                text = '![caption w1][pic]\n\nAfter.\n\n[pic]: %s\n' % dest
+            elif form == 'in-list':
+                text = '* item ![alt w1](%s)\n* two\n' % dest
+            elif form == 'in-table':
+                text = '| h | i |\n|---|---|\n| ![alt w1](%s) | z |\n' % dest
+            else:
+                text = 'Before [![alt w1](%s)](http://e.x/) after.\n' % dest
+            if form.startswith('reference') and url == '':
+                continue            # "[pic]:" with nothing after it is not a definition
+            feature = uf if af in ('none', 'plain-dimension') else (af if uf == 'plain-url' else uf + '+' + af)
+            if rng.random() < 0.3:
+                text += '\n![second](other.png)\n'
+            src = text.encode('utf-8')
+            ext = rng.choice([D.EXT_CLI, D.EXT_CLI, D.EXT_CLI | D.EXT['COMPLETE'], D.EXT_CLI_COMPAT, D.EXT_CLI & ~D.EXT['SMART']])
+            for fname in ('fodt', 'odt', 'epub', 'opml', 'itmz'):
+                fmt = D.FMT[fname]
+                rq = D.req_to_json('asan', 'CONVERT', fmt, ext, 0, 1 | (1 << 4), [src])
+                rep = s.call('asan', 'CONVERT', fmt, ext, 0, 1 | (1 << 4), [src], crash_is_violation=False)
+                r.evaluations += 1
+                if rep is None or rep.status:
+                    r.stats['crashed/exited (C01/C02 territory)'] += 1
+                    continue
+                if fname in MEMBERS:
+                    try:
+                        z = zipfile.ZipFile(io.BytesIO(rep.out))
+                        docs = [('%s:%s' % (fname, n.split('/')[-1]), z.read(n)) for n in z.namelist() if n.endswith(MEMBERS[fname])]
+                    except Exception:
+                        r.stats['package unreadable (C09 territory)'] += 1
+                        continue
+                else:
+                    docs = [(fname, rep.out)]
+                for name, data in docs:
+                    r.stats['image_xml_documents_parsed'] += 1
+                    e = wellformed(data)
+                    if e is not None:
+                        off = getattr(e, 'byte_index', 0)
+                        # the HTML writer copies image attributes into the tag as typed (recorded for link attributes, titles and alt text too): one key for that cause
+                        fkey = 'attribute-value-as-typed' if name == 'epub:main.xhtml' and af not in ('none', 'plain-dimension', 'gt-in-dimension') else feature
+                        r.violate('not-wellformed:%s:image:%s' % (name, fkey), '%s is not well-formed XML: %s at line %d (image %s, destination %r)' % (name, expat.ErrorString(e.code), e.lineno, form, dest),
+                                  dict(requests=[rq], member=name), 'around: %s\nsource: %s' % (core.show(data[max(0, off - 100):off + 40], 240), core.show(src, 300)))
+            r.distinct.add(core.h64('img', src, ext))
+            r.sets['image_features'].add(feature)
+            r.sets['image_forms'].add(form)
+    return r
+
+
 def main():
     chk = core.Check(ID)
     n = chk.scale(12000, 300000)
@@ -277,4 +365,6 @@ def main():
     chk.run_jobs(work, [(chk.seed, lo, min(n, lo + chunk)) for lo in range(0, n, chunk)])
     nr = chk.scale(640, 8000)
     chk.run_jobs(work_rawfilter, [(chk.seed, lo, min(nr, lo + 40)) for lo in range(0, nr, 40)])
+    ni = chk.scale(1600, 30000)
+    chk.run_jobs(work_images, [(chk.seed, lo, min(ni, lo + 50)) for lo in range(0, ni, 50)])
     return chk.finish()
